@@ -123,6 +123,6 @@ def toggle_growth_histories(ck, tier, cases):
 
 if __name__ == "__main__":
     common.run_main(lambda: worldcheck.standard_main(
-        "C07", ["C07"], THEOREMS, {"nops": 10, "derive": 0.8, "deep": 0.5, "new": 0.2}, 150, 6000,
+        "C07", ["C07", "C16Rollback"], THEOREMS, {"nops": 10, "derive": 0.8, "deep": 0.5, "new": 0.2}, 150, 6000,
         ["as C01 for the solve itself", "instances held in lists are not generated in this revision (C04 is not claimed)"],
         RULE, keep=lambda w: not w.startswith("callbacks"), extra_run=toggle_growth_histories))
